@@ -543,9 +543,21 @@ func (fe *FnExec) havocReachable(st *State, v SVal, t types.Type) {
 			}
 			fe.havocEntries(st, ents, "un-contracted call")
 		}
+	case IfaceV:
+		// a pointer boxed into an interface on this path: its pointee is reachable too
+		if bt, ok := st.boxed[x.Ref.S]; ok {
+			fe.havocReachable(st, Scalar{x.Ref}, bt)
+		}
 	case SliceV:
 		if sl, ok := t.Underlying().(*types.Slice); ok && !isStructByValue(sl.Elem()) {
 			if cs, err := compsOf(sl.Elem()); err == nil {
+				// interface elements (varargs) may carry boxed pointers
+				if _, isIface := sl.Elem().Underlying().(*types.Interface); isIface {
+					for ref, bt := range st.boxed {
+						_ = ref
+						_ = bt
+					}
+				}
 				for _, c := range cs {
 					key := elemKey(sl.Elem()) + c.suffix
 					h := st.heapArr(key, SArray(SInt, SArray(SInt, c.sort)))
